@@ -11,9 +11,17 @@
     holes <ap> <validated> <n> (moy rat)*n        -> ok n rat*
     interp <ap> <ts> <cum N|0|1> <nativeCum> <pit> <n> rat*n -> ok <ap'> n rat*
     agg|rate <factor rat> <ts rat> <v rat>        -> ok rat
+    hist <cont> <imm> <ap> <flag> <nativeCum> <pit> <n> (moy rat)*n <op>*   -> ok <step> | <step> ...
+         one history on one object (Model/ResampleObj.lean); for a continuous collection the moys of
+         the items are ignored.  <op>: read 0|1 · validate <adopt> · cull <ts> <adopt> · convcull <ts> ·
+         holes <adopt> · interp <ts> <N|0|1|X> <adopt> · setvalues S | setvalues <k> rat*k ·
+         setitem <i> <rat> · to_immutable · to_mutable · duplicate · to_discontinuous · dict
+         <step> = <out> ; <obs>     <out> = done | err:<class> | res <obs>
+         <obs> = <cont> <imm> <ap> <validated> <n> rat*n <k> moy*k
 -/
 import Ladybug.DrvCore
 import Ladybug.Model.Resample
+import Ladybug.Model.ResampleObj
 
 open Drv Cal Resample
 
@@ -85,8 +93,112 @@ def withAP (toks : List String) (f : AP → List String → String) : String :=
   | some (.error e) => showErr e
   | some (.ok ap) => f ap (toks.drop 8)
 
+
+def showOErr : OErr → String
+  | .value => "err:value"
+  | .assert => "err:assert"
+  | .index => "err:index"
+  | .type => "err:type"
+  | .zero => "err:zero"
+  | .attr => "err:attr"
+
+def showPub (p : Pub) : String :=
+  s!"{showBool p.cont} {showBool p.imm} {showAP p.ap} {showBool p.validated} {showRats p.vals} " ++
+    joinSp (toString p.moys.length :: p.moys.map toString)
+
+def showOut : Out → String
+  | .done => "done"
+  | .refused e => showOErr e
+  | .result p => "res " ++ showPub p
+
+/-- Parse the op tokens of a history. -/
+def ops? : Nat → List String → Option (List Op)
+  | _, [] => some []
+  | 0, _ => none
+  | fuel + 1, toks =>
+    match toks with
+    | "read" :: f :: rest => do
+      let f ← bool? f
+      let r ← ops? fuel rest
+      pure (.read f :: r)
+    | "validate" :: a :: rest => do
+      let a ← bool? a
+      let r ← ops? fuel rest
+      pure (.validate a :: r)
+    | "cull" :: ts :: a :: rest => do
+      let ts ← ts.toNat?
+      let a ← bool? a
+      let r ← ops? fuel rest
+      pure (.cull ts a :: r)
+    | "convcull" :: ts :: rest => do
+      let ts ← ts.toNat?
+      let r ← ops? fuel rest
+      pure (.convCull ts :: r)
+    | "holes" :: a :: rest => do
+      let a ← bool? a
+      let r ← ops? fuel rest
+      pure (.holes a :: r)
+    | "interp" :: ts :: cum :: a :: rest => do
+      let ts ← ts.toNat?
+      let cum ← (if cum = "N" then some (some none) else if cum = "X" then some none
+                 else (bool? cum).map fun b => some (some b))
+      let a ← bool? a
+      let r ← ops? fuel rest
+      pure (.interp ts cum a :: r)
+    | "setvalues" :: "S" :: rest => do
+      let r ← ops? fuel rest
+      pure (.setValues none :: r)
+    | "setvalues" :: k :: rest => do
+      let k ← k.toNat?
+      if rest.length < k then none else
+      let vs ← (rest.take k).mapM rat?
+      let r ← ops? fuel (rest.drop k)
+      pure (.setValues (some vs) :: r)
+    | "setitem" :: i :: v :: rest => do
+      let i ← i.toInt?
+      let v ← rat? v
+      let r ← ops? fuel rest
+      pure (.setItem i v :: r)
+    | "to_immutable" :: rest => (ops? fuel rest).map (Op.toImmutable :: ·)
+    | "to_mutable" :: rest => (ops? fuel rest).map (Op.toMutable :: ·)
+    | "duplicate" :: rest => (ops? fuel rest).map (Op.duplicate :: ·)
+    | "to_discontinuous" :: rest => (ops? fuel rest).map (Op.toDiscontinuous :: ·)
+    | "dict" :: rest => (ops? fuel rest).map (Op.dictRoundTrip :: ·)
+    | _ => none
+
+/-- Run a history and print every step: answer and public state of the current object. -/
+def showHistory (o : Obj) (ops : List Op) : String :=
+  let rec go (o : Obj) : List Op → List String
+    | [] => []
+    | op :: rest =>
+      let r := step o op
+      (showOut r.2 ++ " ; " ++ showPub r.1.pub) :: go r.1 rest
+  "ok " ++ " | ".intercalate (go o ops)
+
+def handleHist (cont imm : Bool) (ap : AP) (r : List String) : String :=
+  match r with
+  | flag :: nc :: pit :: n :: rest =>
+    match bool? flag, bool? nc, bool? pit, n.toNat? with
+    | some flag, some nc, some pit, some n =>
+      if rest.length < 2 * n then "bad-op" else
+      match ratPairs? (rest.take (2 * n)), ops? (rest.length + 1) (rest.drop (2 * n)) with
+      | some ps, some ops =>
+          let p0 : Pub := ⟨cont, imm, ap, ps.map (·.2), ps.map (·.1), flag, nc, pit⟩
+          let init : Except OErr Obj :=
+            if cont then mkCont p0 imm ap p0.vals else mkDisc p0 imm ap p0.vals p0.moys flag
+          match init with
+          | .error e => showOErr e
+          | .ok o => showHistory o ops
+      | _, _ => "bad-op"
+    | _, _, _, _ => "bad-op"
+  | _ => "bad-op"
+
 def handle (toks : List String) : String :=
   match toks with
+  | "hist" :: c :: i :: rest =>
+    match bool? c, bool? i with
+    | some c, some i => withAP rest fun ap r => handleHist c i ap r
+    | _, _ => "bad-op"
   | "vh" :: rest => withAP rest fun ap r =>
       match r with
       | dl :: n :: items =>
